@@ -45,6 +45,46 @@ def strictly_downstream(g, failing):
     return D
 
 
+def equal_rewrite_part(ctx):
+    """Exactly the completed work: a node that COMPLETED before the failure has its output in the FAILED result - also when the
+    value it wrote equals the one the caller had supplied under that name (a cycle seed rewritten unchanged)."""
+    import asyncio
+    from hypergraph import AsyncRunner, Graph, SyncRunner
+    from hypergraph.nodes import FunctionNode
+    rng = ctx.rng
+    n = 0
+    for _ in range(ctx.n(6, 40)):
+        v = rng.choice([0, 1, 7, "s", (1, 2)])
+        calls = []
+
+        def keep(x):
+            calls.append("keep")
+            return x                      # rewrites the seed with an equal value
+
+        def double(x):
+            calls.append("double")
+            return (x, x)
+
+        def boom(d):
+            raise KeyError("boom")
+        g = Graph([FunctionNode(keep, name="keep", output_name="x"), FunctionNode(double, name="double", output_name="d"),
+                   FunctionNode(boom, name="boom", output_name="z")])
+        is_async = rng.random() < 0.5
+        try:
+            r = asyncio.run(AsyncRunner().run(g, {"x": v}, error_handling="continue")) if is_async else SyncRunner().run(g, {"x": v}, error_handling="continue")
+        except Exception as e:  # noqa: BLE001
+            ctx.violation("oracle", f"equal rewrite: continue mode raised {type(e).__name__}", case={"family": "equal_rewrite", "seed": repr(v)})
+            continue
+        n += 1
+        vals = dict(r.values)
+        case = {"family": "equal_rewrite", "seed": repr(v), "runner": "async" if is_async else "sync"}
+        if "keep" in calls and "x" not in vals:
+            ctx.violation("oracle", f"node keep completed (it rewrote x with the equal value {v!r}) but 'x' is missing from the FAILED result {vals}", case=case)
+        if "double" in calls and vals.get("d") != (v, v):
+            ctx.violation("oracle", f"node double completed but the FAILED result holds d={vals.get('d')!r}", case=case)
+    return n
+
+
 def run(ctx):
     rng = ctx.rng
     cases, meta = [], []
@@ -142,7 +182,7 @@ def run(ctx):
                 if n["fn"][0] == "raise" and not path and sum(1 for nm, _ in obs["log"] if nm == n["name"]) == 1:
                     failing_outs |= set(pdl.node_outputs(n)) - set(rc["inputs"])
             # exactly the completed work: a top-level node that completed has its outputs in the result
-            if md["fam"] in ("dag", "nested", "emit") and rc.get("select") is None:
+            if rc.get("select") is None:         # (every family: a completed node's outputs stay in the state, loops and gated graphs included)
                 done = {nm for nm, _ in obs["log"]}
                 for nn in g["nodes"]:
                     if nn["kind"] == "func" and nn["name"] in done and nn["fn"][0] != "raise":
@@ -158,11 +198,12 @@ def run(ctx):
         return msgs
 
     from harness.props.c16 import missing_error
+    n_equal = equal_rewrite_part(ctx)
     obs_all, res = engine.run_cases(ctx, "C11", cases, extra=extra, want_model=lambda g, rc, obs: not missing_error(obs) and not any(
                                           n["kind"] == "interrupt" and n.get("fn", [None])[0] == "raise" for n in g["nodes"])
                                           and not (rc.get("stop_iteration") and rc.get("runner") == "async"))
     ctx.coverage.update(
-        evaluations=len(cases), coq_checks=res["n"], distinct_nontrivial=len(nontrivial),
+        evaluations=len(cases) + n_equal, coq_checks=res["n"], distinct_nontrivial=len(nontrivial),
         rule="dag / gated / loop / emit programs and DAGs nested to depth 1-3; each of up to three nodes in turn (25% together with a second "
              "node) replaced by a function raising a fresh exception object; error_handling continue and raise; both runners; "
              "non-trivial = the failing node actually ran and a FAILED result was returned",
